@@ -64,6 +64,9 @@ class SpartanProtocol(BaseGopherProtocol):
             self.handler.write(self.wfile)
 
     def write_status(self, code: int, meta: str) -> None:
+        # The status line ends at the first CRLF: keep line breaks that were
+        # percent-decoded out of the request from starting a second line.
+        meta = meta.replace("\r", " ").replace("\n", " ")
         self.wfile.write(f"{code} {meta}\r\n".encode(errors="backslashreplace"))
 
     def adjust_mimetype(self, mimetype: typing.Optional[str]) -> str:
